@@ -78,3 +78,15 @@ impl Client {
         StreamBuilder::new(self.clone(), RequestorWantsRequestEncoder::new(endpoint))
     }
 }
+
+#[cfg(feature = "verif")]
+impl Client {
+    /// Fault injection for verification builds only: closes this client's current QUIC
+    /// connection locally, as if the connection had been lost.
+    pub async fn verif_close_connection(&self) {
+        let connection = self.connection.lock().await;
+        connection
+            .conn()
+            .close(0u32.into(), b"verif: injected connection loss");
+    }
+}
